@@ -493,6 +493,7 @@ _POST_INIT_RAISERS = (
     lambda: ValueError("post_init says no"), lambda: TypeError("post_init type"), lambda: KeyError('post_init key'),
     lambda: env.ParseInterrupt(), lambda: env.ConvertError(env.m_errors.WrongTypeError('nothing', None)),
     lambda: AttributeError('post_init attr'), lambda: ZeroDivisionError('post_init zero'), lambda: AssertionError(),
+    lambda: ValueError("two complaints:\n - the first one\n - the second one"),
 )
 
 
